@@ -16,7 +16,8 @@ func init() {
 		Rule: "one case = one compaction-heavy history on CrashFS (thresholds make a segment eligible after a few overwrites/deletes; scenario phases: delete " +
 			"everything, overwrite everything, delete a third; Compact every ~8 calls). Through the verif yield hook the harness itself runs Put/Delete/" +
 			"nested Compact/full read-backs inside compaction's lock-free windows (after the pick, after sealing a source, between any two records, before " +
-			"the source is removed) - deterministic placement of what another goroutine could do there. A full read-back against the reference follows " +
+			"the source is removed) - deterministic placement of what another goroutine could do there. One compaction in five runs without writers but with one failing read (fault injection): it may return an error, " +
+			"the contents must not change. A full read-back against the reference follows " +
 			"every call, including every call inside a window. Then every FS-call boundary and every sector tear inside each Compact (its own calls and the " +
 			"calls of the writers slipped into it) is recovered as a crash image and must equal the reference state before/after the innermost call in " +
 			"flight; outside compactions every call boundary is recovered too (resurrection check after later writes). evaluations = images recovered + " +
@@ -35,7 +36,7 @@ func init() {
 		Run: runC05,
 		Require: []string{"compactions_effective", "window_puts", "window_deletes", "window_nested_compact", "window_readbacks",
 			"wkey_in-source", "wkey_already-promoted", "wkey_elsewhere", "wkey_absent", "yield_compact:picked", "yield_compact:record", "yield_compact:copied",
-			"images_inside_compaction", "compacted_all_segments", "compacted_current_segment", "segment_id_reuse", "delete_markers_dropped"},
+			"images_inside_compaction", "compacted_all_segments", "compacted_current_segment", "segment_id_reuse", "delete_markers_dropped", "compactions_with_injected_fault", "compactions_failed_by_fault"},
 	})
 }
 
@@ -90,6 +91,8 @@ func runC05(c *core.Ctx) {
 		pending = append(pending, wrec{key: string(key), startSeg: startSlots[string(key)], curSeg: cur[string(key)], written: writtenInCompaction[string(key)]})
 		writtenInCompaction[string(key)] = true
 	}
+	core.HBFaults = true
+	defer func() { core.HBFaults = false }()
 	hb, err := core.NewHB(c, nil, cfg, ks.Keys, nil)
 	if err != nil {
 		c.Violation("open-error", err.Error(), nil)
@@ -122,7 +125,37 @@ func runC05(c *core.Ctx) {
 		}
 		pending = nil
 		startSlots = slotSegments(hb)
+		// one compaction in five runs undisturbed by writers but with ONE failing read (of a segment record or an index
+		// bucket): whether it then returns an error or not, the contents must stay what they are. (Failing writes or
+		// removes are not injected: the properties make no claim about a database whose files and memory diverge after
+		// a failed write.)
+		faulty := rng.Intn(5) == 0
+		saved := hb.InWindow
+		if faulty {
+			hb.InWindow = nil
+			hb.AllowCompactError = true
+			hb.LiveCheck = false
+			hb.Faults.Reads = true
+			hb.Faults.Only = "read"
+			hb.Faults.Arm(rng.Intn(30))
+		}
 		cr := hb.Compact()
+		if faulty {
+			if hb.Faults.Fired != "" {
+				c.Stat("compactions_with_injected_fault", 1)
+			}
+			hb.Faults.Disarm()
+			hb.Faults.Reads = false
+			hb.Faults.Only = ""
+			hb.AllowCompactError = false
+			hb.InWindow = saved
+			hb.LiveCheck = true
+			if st, err := core.Dump(hb.DB, ks.Keys); err != nil {
+				hb.Failed = "read-back after a compaction with a failing read: " + err.Error()
+			} else if !st.Equal(hb.Ref) {
+				hb.Failed = "read-back after a compaction with a failing read differs: " + st.Diff(hb.Ref, 4)
+			}
+		}
 		after := map[string]bool{}
 		ids := map[uint16]bool{}
 		for _, s := range hb.DB.VerifSegments() {
@@ -246,6 +279,7 @@ func runC05(c *core.Ctx) {
 		return
 	}
 	h := hb.Finish()
+	c.Stat("compactions_failed_by_fault", int64(hb.CompactErrors))
 	c.Eval(int64(len(h.Iv))) // live read-backs
 	c.Stat("histories", 1)
 	// which intervals lie inside a compaction (its own parts and the nested calls)
